@@ -102,4 +102,9 @@ Section Mortar.
     nmul stiffness (nsum (map (fun q : T * T => let '(w, phi) := q in nmul (nmul jac w) (nsq (nmin nzero phi))) wphi)).
   Definition penalty_total (edges : list (T * T * list (T * T))) : T :=
     nsum (map (fun e : T * T * list (T * T) => let '(k, jac, wphi) := e in penalty_edge k jac wphi) edges).
+
+  (* Contact.get_closest_distance: the signed distance of the edge whose |cpp_distance| is smallest (first one on ties) *)
+  Fixpoint closest_of (best : T) (l : list T) : T :=
+    match l with [] => best | d :: r => closest_of (if nltb (nabs d) (nabs best) then d else best) r end.
+  Definition closest_distance (l : list T) : T := match l with [] => nzero | d :: r => closest_of d r end.
 End Mortar.
